@@ -817,6 +817,9 @@ func init() {
 	})
 	E("(*os.File).Write", func(fr *frame, args []value) value {
 		p := fr.i.path
+		if pv, ok := args[0].(*value); ok && pv == nil {
+			return tuple{0, iface{errorType, "invalid argument"}}
+		}
 		f := unbox(args[0], "*os.File").(*fileModel)
 		if f.closed {
 			return tuple{0, iface{errorType, "write " + f.path + ": file already closed"}}
@@ -840,7 +843,85 @@ func init() {
 		p.env.effects = append(p.env.effects, effect{kind: "fs", path: f.path, data: data})
 		return tuple{n, iface{}}
 	})
+	E("os.OpenFile", func(fr *frame, args []value) value {
+		p := fr.i.path
+		path := concStr(args[0], "os.OpenFile")
+		flag := int(p.concInt(args[1], "open flags"))
+		const oCreate, oTrunc, oExcl = 0x40, 0x200, 0x80
+		_, exists := p.env.files[path]
+		if !exists {
+			if flag&oCreate == 0 {
+				return tuple{(*value)(nil), fsNotExist(path, "open")}
+			}
+			if k := strings.LastIndex(path, "/"); k > 0 && !p.env.dirs[path[:k]] {
+				return tuple{(*value)(nil), fsNotExist(path, "open")}
+			}
+			p.env.files[path] = []value{}
+			p.env.effects = append(p.env.effects, effect{kind: "fs", path: path, data: []value{}})
+		} else if flag&oExcl != 0 && flag&oCreate != 0 {
+			return tuple{(*value)(nil), iface{errorType, "open " + path + ": file exists"}}
+		} else if flag&oTrunc != 0 {
+			p.env.files[path] = []value{}
+			p.env.effects = append(p.env.effects, effect{kind: "fs", path: path, data: []value{}})
+		}
+		// (writes always append in the model; seeking writers are not modelled)
+		return tuple{box(&fileModel{path: path, readonly: flag&3 == 0}), iface{}}
+	})
+	E("(*os.File).Read", func(fr *frame, args []value) value {
+		p := fr.i.path
+		f := unbox(args[0], "*os.File").(*fileModel)
+		buf := args[1].([]value)
+		content, ok := p.env.files[f.path].([]value)
+		if !ok {
+			if _, isPayload := p.env.files[f.path].(*payloadFile); isPayload {
+				panic(unsupported{"byte-level read of a modelled backup stream"})
+			}
+			return tuple{0, iface{errorType, "read " + f.path + ": is a directory"}}
+		}
+		if f.pos >= len(content) {
+			return tuple{0, iface{errorType, "EOF"}}
+		}
+		n := copy(buf, content[f.pos:])
+		f.pos += n
+		return tuple{n, iface{}}
+	})
+	E("io.Copy", func(fr *frame, args []value) value {
+		p := fr.i.path
+		dst, ok1 := args[0].(iface)
+		src, ok2 := args[1].(iface)
+		if !ok1 || !ok2 {
+			panic(unsupported{"io.Copy on non-interface values"})
+		}
+		dp, _ := dst.v.(*value)
+		sp, _ := src.v.(*value)
+		if dp == nil || sp == nil {
+			panic("runtime error: invalid memory address or nil pointer dereference (io.Copy)")
+		}
+		df, okd := (*dp).(*fileModel)
+		sf, oks := (*sp).(*fileModel)
+		if !okd || !oks {
+			panic(unsupported{"io.Copy between non-file streams"})
+		}
+		if df.readonly {
+			return tuple{int64(0), iface{errorType, "write " + df.path + ": bad file descriptor"}}
+		}
+		content := cloneBytes(p.env.files[sf.path])
+		var cur []value
+		if c, ok := p.env.files[df.path].([]value); ok {
+			cur = c
+		}
+		if cb, ok := content.([]value); ok {
+			data := append(append([]value{}, cur...), cb[sf.pos:]...)
+			p.env.files[df.path] = data
+			p.env.effects = append(p.env.effects, effect{kind: "fs", path: df.path, data: data})
+			return tuple{int64(len(cb) - sf.pos), iface{}}
+		}
+		panic(unsupported{"io.Copy of a modelled stream"})
+	})
 	E("(*os.File).Close", func(fr *frame, args []value) value {
+		if pv, ok := args[0].(*value); ok && pv == nil {
+			return iface{errorType, "invalid argument"}
+		}
 		f := unbox(args[0], "*os.File").(*fileModel)
 		if f.closed {
 			return iface{errorType, "close " + f.path + ": file already closed"}
@@ -876,6 +957,14 @@ type fileInfoModel struct {
 
 func fileLen(fr *frame, f value) int {
 	switch x := f.(type) {
+	case *payloadFile:
+		n := 0
+		for _, part := range x.parts {
+			if bp, ok := part.(*backupPayload); ok {
+				n += 16 + 8*len(bp.ents)
+			}
+		}
+		return n
 	case []value:
 		return len(x)
 	case *blob:
